@@ -153,6 +153,8 @@ class LoopGen:
                         out.append({"k": "if", "a": r.choice(ivs), "b": r.choice(["%c1", "%c2"]), "then": [{"k": "dealloc", "buf": nm}], "else": [{"k": "dealloc", "buf": nm}]})
                     elif how == "cast":
                         out.append({"k": "dealloc", "buf": nm, "cast": r.choice([1, 1, 2, 3])})  # freed through a (chain of) memref.cast of it
+                        if r.random() < 0.3:
+                            out[-1]["msc"] = True  # ... the last link is a memref.memory_space_cast
                     else:
                         out.append({"k": "dealloc", "buf": nm})  # the buffer is freed again in the same body
                 bufs = bufs + [nm]
@@ -267,7 +269,13 @@ def emit(ast) -> str:
                     cnt[0] += 1
                     e(ind, f'%dc{cnt[0]} = "memref.cast"({prev}) : ({TB}) -> {TB}')
                     prev = f"%dc{cnt[0]}"
-                e(ind, f"memref.dealloc {prev} : {TB}")
+                if s.get("msc"):
+                    cnt[0] += 1
+                    tb3 = TB.replace('"L1"', '"L3"')
+                    e(ind, f'%dc{cnt[0]} = "memref.memory_space_cast"({prev}) : ({TB}) -> {tb3}')
+                    e(ind, f"memref.dealloc %dc{cnt[0]} : {tb3}")
+                else:
+                    e(ind, f"memref.dealloc {prev} : {TB}")
             elif k == "dealloc":
                 e(ind, f'memref.dealloc {s["buf"]} : {TB}')
             elif k == "dim":
